@@ -510,6 +510,58 @@ pub fn exercise_dwarf<Rd: Reader<Offset = usize>>(dwarf: &gimli::Dwarf<Rd>, b: &
     Ok(())
 }
 
+
+fn frames<Rd: Reader<Offset = usize>, S: UnwindSection<Rd>>(s: &S, bases: &gimli::BaseAddresses, b: &mut Bud) -> R
+where
+    S::Offset: gimli::UnwindOffset<usize>,
+{
+    let mut it = s.entries(bases);
+    let mut fdes = Vec::new();
+    drain(b, "cfi-entries", false, || it.next(), |e, _| {
+        match e {
+            gimli::CieOrFde::Cie(c) => {
+                let _ = (c.offset(), c.version(), c.augmentation(), c.personality(), c.lsda_encoding(), c.code_alignment_factor(), c.data_alignment_factor(), c.return_address_register(), c.entry_len());
+            }
+            gimli::CieOrFde::Fde(p) => {
+                if let Ok(f) = p.parse(S::cie_from_offset) {
+                    fdes.push(f);
+                }
+            }
+        }
+        Ok(())
+    })?;
+    let mut ctx = Box::new(gimli::UnwindContext::new());
+    for f in fdes.iter().take(12) {
+        let _ = (f.offset(), f.initial_address(), f.len(), f.end_address(), f.lsda(), f.personality(), f.is_signal_trampoline(), f.contains(f.initial_address()));
+        let mut ins = f.cie().instructions(s, bases);
+        drain(b, "cie-instructions", false, || ins.next(), |i, _| {
+            if let gimli::CallFrameInstruction::DefCfaExpression { expression } | gimli::CallFrameInstruction::Expression { expression, .. } | gimli::CallFrameInstruction::ValExpression { expression, .. } = i {
+                let _ = expression.get(s);
+            }
+            Ok(())
+        })?;
+        let mut ins = f.instructions(s, bases);
+        drain(b, "fde-instructions", false, || ins.next(), nop)?;
+        if let Ok(mut t) = f.rows(s, bases, &mut ctx) {
+            drain(b, "unwind-rows", false, || t.next_row().map(|o| o.map(|_| ())), nop)?;
+        }
+        let _ = f.unwind_info_for_address(s, bases, &mut ctx, f.initial_address());
+        let _ = s.unwind_info_for_address(bases, &mut ctx, f.initial_address().wrapping_add(1), S::cie_from_offset);
+        let _ = s.fde_for_address(bases, f.initial_address(), S::cie_from_offset);
+    }
+    Ok(())
+}
+
+fn frames_dispatch(map: &Map, endian: RunTimeEndian, address_size: u8, bases: &gimli::BaseAddresses, b: &mut Bud) -> R {
+    let empty: Vec<u8> = Vec::new();
+    let mut df = gimli::DebugFrame::new(map.get(".debug_frame").unwrap_or(&empty), endian);
+    df.set_address_size(address_size);
+    frames(&df, bases, b)?;
+    let mut ef = gimli::EhFrame::new(map.get(".eh_frame").unwrap_or(&empty), endian);
+    ef.set_address_size(address_size);
+    frames(&ef, bases, b)
+}
+
 /// Sections that are not part of `Dwarf`: names tables, package indexes, frame sections, eh_frame_hdr.
 fn exercise_misc(map: &Map, endian: RunTimeEndian, address_size: u8, b: &mut Bud) -> R {
     let empty: Vec<u8> = Vec::new();
@@ -611,53 +663,14 @@ fn exercise_misc(map: &Map, endian: RunTimeEndian, address_size: u8, b: &mut Bud
     }
     // frames
     let bases = gimli::BaseAddresses::default().set_eh_frame(0x1000).set_text(0x2000).set_got(0x3000).set_eh_frame_hdr(0x4000);
-    fn frames<'a, S: UnwindSection<EndianSlice<'a, RunTimeEndian>>>(s: &S, bases: &gimli::BaseAddresses, b: &mut Bud) -> R
-    where
-        S::Offset: gimli::UnwindOffset<usize>,
-    {
-        let mut it = s.entries(bases);
-        let mut fdes = Vec::new();
-        drain(b, "cfi-entries", false, || it.next(), |e, _| {
-            match e {
-                gimli::CieOrFde::Cie(c) => {
-                    let _ = (c.offset(), c.version(), c.augmentation(), c.personality(), c.lsda_encoding(), c.code_alignment_factor(), c.data_alignment_factor(), c.return_address_register(), c.entry_len());
-                }
-                gimli::CieOrFde::Fde(p) => {
-                    if let Ok(f) = p.parse(S::cie_from_offset) {
-                        fdes.push(f);
-                    }
-                }
-            }
-            Ok(())
-        })?;
-        let mut ctx = Box::new(gimli::UnwindContext::new());
-        for f in fdes.iter().take(12) {
-            let _ = (f.offset(), f.initial_address(), f.len(), f.end_address(), f.lsda(), f.personality(), f.is_signal_trampoline(), f.contains(f.initial_address()));
-            let mut ins = f.cie().instructions(s, bases);
-            drain(b, "cie-instructions", false, || ins.next(), |i, _| {
-                if let gimli::CallFrameInstruction::DefCfaExpression { expression } | gimli::CallFrameInstruction::Expression { expression, .. } | gimli::CallFrameInstruction::ValExpression { expression, .. } = i {
-                    let _ = expression.get(s);
-                }
-                Ok(())
-            })?;
-            let mut ins = f.instructions(s, bases);
-            drain(b, "fde-instructions", false, || ins.next(), nop)?;
-            if let Ok(mut t) = f.rows(s, bases, &mut ctx) {
-                drain(b, "unwind-rows", false, || t.next_row().map(|o| o.map(|_| ())), nop)?;
-            }
-            let _ = f.unwind_info_for_address(s, bases, &mut ctx, f.initial_address());
-            let _ = s.unwind_info_for_address(bases, &mut ctx, f.initial_address().wrapping_add(1), S::cie_from_offset);
-            let _ = s.fde_for_address(bases, f.initial_address(), S::cie_from_offset);
-        }
-        Ok(())
-    }
+    frames_dispatch(map, endian, address_size, &bases, b)?;
+    let ef = {
+        let mut ef = gimli::EhFrame::new(sec(".eh_frame"), endian);
+        ef.set_address_size(address_size);
+        ef
+    };
     let mut df = gimli::DebugFrame::new(sec(".debug_frame"), endian);
-    df.set_address_size(address_size);
-    frames(&df, &bases, b)?;
-    let mut ef = gimli::EhFrame::new(sec(".eh_frame"), endian);
-    ef.set_address_size(address_size);
-    frames(&ef, &bases, b)?;
-    for k in [0usize, 4, 8, 0x10, usize::MAX] {
+    df.set_address_size(address_size);    for k in [0usize, 4, 8, 0x10, usize::MAX] {
         let _ = df.cie_from_offset(&bases, gimli::DebugFrameOffset(k));
         let _ = df.fde_from_offset(&bases, gimli::DebugFrameOffset(k), gimli::DebugFrame::cie_from_offset);
         let _ = ef.cie_from_offset(&bases, gimli::EhFrameOffset(k));
@@ -750,7 +763,7 @@ pub fn exercise_all(map: &Map, big: bool, address_size: u8, convert: bool, total
 }
 
 /// The same sections through a reader that fails at operation `fail_at`.
-pub fn exercise_faulty(map: &Map, big: bool, fail_at: u64, total: u64) -> R<u64> {
+pub fn exercise_faulty(map: &Map, big: bool, address_size: u8, convert: bool, fail_at: u64, total: u64) -> R<u64> {
     let endian = if big { RunTimeEndian::Big } else { RunTimeEndian::Little };
     let size: u64 = map.values().map(|v| v.len() as u64).sum();
     let mut b = Bud { per_iter: 8 * size + 256, total, used: 0, errors: 0, skipped_deep_write: false };
@@ -758,6 +771,21 @@ pub fn exercise_faulty(map: &Map, big: bool, fail_at: u64, total: u64) -> R<u64>
     let empty: Vec<u8> = Vec::new();
     let dwarf: gimli::Dwarf<FaultReader> = gimli::Dwarf::load(|id| -> Result<_, gimli::Error> { Ok(FaultReader::new(map.get(id.name()).unwrap_or(&empty), endian, ops.clone(), fail_at)) }).unwrap();
     exercise_dwarf(&dwarf, &mut b)?;
+    // frame sections and the converters through the failing reader as well
+    let bases = gimli::BaseAddresses::default().set_eh_frame(0x1000).set_text(0x2000).set_got(0x3000);
+    let mut df = gimli::DebugFrame::from(FaultReader::new(map.get(".debug_frame").unwrap_or(&empty), endian, ops.clone(), fail_at));
+    df.set_address_size(address_size);
+    frames(&df, &bases, &mut b)?;
+    let mut ef = gimli::EhFrame::from(FaultReader::new(map.get(".eh_frame").unwrap_or(&empty), endian, ops.clone(), fail_at));
+    ef.set_address_size(address_size);
+    frames(&ef, &bases, &mut b)?;
+    if convert {
+        use gimli::write as w;
+        let ca = |a: u64| Some(w::Address::Constant(a));
+        let _ = w::Dwarf::from(&dwarf, &ca);
+        let _ = w::FrameTable::from(&df, &ca);
+        let _ = w::FrameTable::from(&ef, &ca);
+    }
     Ok(ops.get())
 }
 
@@ -1158,11 +1186,11 @@ fn check(ch: &mut Choices, cx: &mut Ctx) -> R {
     // reader failures at every operation (strided)
     if ch.chance(60) {
         cx.label("reader fault sweep");
-        let total_ops = exercise_faulty(&map, big, u64::MAX, 60_000)?;
+        let total_ops = exercise_faulty(&map, big, address_size, true, u64::MAX, 60_000)?;
         let stride = (total_ops / 40).max(1);
         let mut k = 1;
         while k <= total_ops {
-            exercise_faulty(&map, big, k, 60_000)?;
+            exercise_faulty(&map, big, address_size, k % 3 == 0, k, 60_000)?;
             k += stride;
         }
     }
